@@ -32,6 +32,10 @@ def expand(ops):
             for i in range(op["n"]):
                 out.append({"op": "insert", "b": op["b"], "e": [i % 50, i % 4, "abc"[i % 3]]})
             out.append({"op": op["then"], "b": op["b2"], "v": op.get("v", 0)})
+        elif op["op"] == "big_bucket_delete":
+            # a bucket with more than a thousand events, then its deletion: still one indivisible operation
+            out.append({"op": "bulk", "b": op["b"], "n": op["n"], "seed": op.get("v", 0), "upd": 0})
+            out.append({"op": "delete_bucket", "b": op["b"]})
         elif op["op"] == "bulk_stale":
             # make a handle go stale (create, delete), then bulk-insert through it: must be rejected and change nothing
             out.append({"op": "create_bucket", "b": 3})
@@ -196,7 +200,8 @@ def history_strategy(max_ops=60, with_reads=True, max_bulk=130):
     read = st.fixed_dictionaries({"op": st.just("read"), "b": b, "kind": st.sampled_from(["get", "count", "by_id"])})
     rejected = st.fixed_dictionaries({"op": st.sampled_from(["delete_missing", "bulk_stale", "bulk_stale"]), "b": b, "v": st.integers(0, 9)})
     backlog = st.fixed_dictionaries({"op": st.just("backlog_then_bucket_op"), "b": b, "b2": b, "n": st.sampled_from([48, 49, 50, 50, 51]), "then": st.sampled_from(["delete_bucket", "delete_bucket", "update_bucket", "create_bucket"]), "v": st.integers(0, 9)})
-    parts = [single, single, single, single, single, single, bulk, delrun, bucket, rejected, backlog]
+    big = st.fixed_dictionaries({"op": st.just("big_bucket_delete"), "b": b, "n": st.sampled_from([1001, 1100, 2100]), "v": st.integers(0, 99)})
+    parts = [single, single, single, single, single, single, bulk, delrun, bucket, rejected, backlog] * 3 + [big]
     if with_reads:
         parts.append(read)
     return st.lists(st.one_of(*parts), min_size=5, max_size=max_ops)
